@@ -169,3 +169,6 @@ Proof.
 Qed.
 
 End Steps.
+
+Lemma length_close_all s : length (close_all s) = length (chans s).
+Proof. unfold close_all. now rewrite map_length, combine_length, seq_length, Nat.min_id. Qed.
